@@ -57,15 +57,20 @@ def setup():
 
 
 # ----------------------------------------------------------------- messages
-def message(n, seed):
+def message(n, seed, period=None):
     """canonical single-record NDEF message of exactly n octets (n = 0, 3 or
-    >= 6)"""
+    >= 6); period: the payload repeats every `period` octets (1 = the same
+    octet throughout), so that whole fragments of it are equal"""
     if n <= 0:
         return b""
     if n < 6:
         return b"\xd0\x00\x00"
-    pay = lambda k: bytes((seed * 17 + i * 5 + (i >> 8)) & 0xFF  # noqa: E731
-                          for i in range(k))
+    if period:
+        pay = lambda k: bytes((seed * 17 + (i % period) * 5) & 0xFF  # noqa
+                              for i in range(k))
+    else:
+        pay = lambda k: bytes((seed * 17 + i * 5 + (i >> 8)) & 0xFF  # noqa
+                              for i in range(k))
     if n <= 261:
         return b"\xd2\x03" + bytes([n - 6]) + b"a/b" + pay(n - 6)
     if n <= 264:
@@ -94,6 +99,21 @@ def hs_records(q, seed):
 # --------------------------------------------------------------- generators
 miu = st.one_of(st.sampled_from([128, 129, 131, 248, 255, 256, 1000, 2175]),
                 st.integers(128, 2175))
+
+
+def period_of(case):
+    """payload period of a case: None (no repetition) or a divisor / the
+    value of a fragment size in play"""
+    f = case.get("fill")
+    if not f:
+        return None
+    cands = [1, 64, 124, case.get("srv_miu", 128), case["miu_i"],
+             case["miu_t"], 128, min(case.get("srv_miu", 128),
+                                     case["miu_" + case["server"]])]
+    return max(1, cands[f % len(cands)])
+
+
+FILL = st.sampled_from([0, 0, 0, 1, 2, 3, 4, 5, 6, 7, 8])
 
 
 def around(m, kmax=4):
@@ -125,7 +145,7 @@ def snep_case(draw, kind):
     size = draw(st.one_of(around(eff), around(128), st.integers(0, 6000),
                           st.sampled_from([0, 3, 6])))
     case = dict(lk, kind=kind, srv_miu=smiu, srv_rw=srw, size=size,
-                seed=draw(st.integers(0, 255)),
+                seed=draw(st.integers(0, 255)), fill=draw(FILL),
                 explicit=draw(st.booleans()),
                 limit=draw(st.sampled_from([None, None, None, -1, 0, 1])))
     if kind == "get":
@@ -219,11 +239,11 @@ def run(case, ctx):
     try:
         if kind in ("put", "get"):
             size = norm_size(case["size"])
-            msg = message(size, case["seed"])
+            msg = message(size, case["seed"], period_of(case))
             limit = None if case["limit"] is None else max(
                 0, size + case["limit"])
             rsize = norm_size(case.get("rsize", 0))
-            answer = message(rsize, case["seed"] ^ 0x55)
+            answer = message(rsize, case["seed"] ^ 0x55, period_of(case))
             climit = None
             if kind == "get" and case.get("climit") is not None:
                 climit = max(0, rsize + case["climit"])
@@ -441,6 +461,7 @@ def session_case(draw):
         st.tuples(st.just("put"), size, st.just(0)),
         st.tuples(st.just("get"), size, size)), min_size=2, max_size=5))
     return dict(lk, kind="session", reqs=[list(r) for r in reqs],
+                fill=draw(FILL),
                 srv_miu=draw(st.sampled_from([128, 128, 248, 1984])),
                 srv_rw=draw(st.integers(1, 6)),
                 seed=draw(st.integers(0, 255)))
@@ -456,8 +477,10 @@ def run_session(case, ctx):
                       "lrt": case["lrt"], "brs": case["brs"]}
     P = p2p.Pair(case["choices"], seed=case["seed"], opts_i=opts["i"],
                  opts_t=opts["t"])
-    reqs = [(op, message(norm_size(n), case["seed"] + 3 * k),
-             message(norm_size(m), case["seed"] + 3 * k + 1))
+    reqs = [(op, message(norm_size(n), case["seed"] + 3 * k,
+                         period_of(case)),
+             message(norm_size(m), case["seed"] + 3 * k + 1,
+                     period_of(case)))
             for k, (op, n, m) in enumerate(case["reqs"])]
     answers = [ans for op, msg, ans in reqs if op == "get"]
     seen, results, done, out = [], [], [], {}
